@@ -369,6 +369,69 @@ pub fn format_source_lib(src: &str, width: Option<usize>) -> Result<String, Stri
     }
 }
 
+/// The REAL `blots-wasm::format_blots` (its source is compiled into the harness as `crate::wasm_driver`). Its
+/// error paths and its final hand-over go through wasm-bindgen stubs that abort a native process, so it is only
+/// called on sources for which the mirror above succeeds, and hook H6 unwinds out of it with the result text.
+pub fn format_source_wasm(src: &str, width: Option<usize>) -> Result<String, String> {
+    use blots_core::verif_hooks;
+    verif_hooks::take_driver_results();
+    verif_hooks::set_stop_after_driver_result(true);
+    let r = std::panic::catch_unwind(std::panic::AssertUnwindSafe(|| {
+        let _ = crate::wasm_driver::format_blots(src, width);
+    }));
+    verif_hooks::set_stop_after_driver_result(false);
+    let mut got = verif_hooks::take_driver_results();
+    match (got.pop(), r) {
+        (Some((_, text)), _) => Ok(text),
+        (None, Err(p)) => {
+            let msg = p.downcast_ref::<String>().cloned().or_else(|| p.downcast_ref::<&str>().map(|s| s.to_string())).unwrap_or_else(|| "<panic>".to_string());
+            if msg.contains("wasm-bindgen imported functions") {
+                // the driver was building a JsError: it reports an error to its host
+                Err("DRIVER: format_blots reported an error to its host (its mirror in the harness formats this source)".to_string())
+            } else {
+                Err(format!("PANIC: {}", msg))
+            }
+        }
+        (None, Ok(())) => Err("DRIVER: format_blots returned an error (its mirror in the harness formats this source)".to_string()),
+    }
+}
+
+thread_local! {
+    static DRIVER_JOURNAL: RefCell<Option<(std::fs::File, u64)>> = const { RefCell::new(None) };
+}
+
+/// Crash journal for calls into the real wasm driver (`--journal PATH`): the source is appended before the call, so
+/// that a process death inside the driver (its error paths abort a native process) is attributed to its input.
+pub fn open_driver_journal(path: Option<&str>) {
+    if let Some(p) = path {
+        if let Ok(f) = std::fs::OpenOptions::new().create(true).append(true).open(p) {
+            DRIVER_JOURNAL.with(|j| *j.borrow_mut() = Some((f, 0)));
+        }
+    }
+}
+
+fn driver_journal_note(src: &str, width: Option<usize>) {
+    DRIVER_JOURNAL.with(|j| {
+        if let Some((f, k)) = j.borrow_mut().as_mut() {
+            use std::io::Write;
+            *k += 1;
+            let p: String = src.chars().take(1500).collect();
+            let _ = f.write_all(format!("{}\tformat_blots(width={:?}) on: {}\n", k, width, p.replace('\n', "\\n").replace('\t', "\\t")).as_bytes());
+        }
+    });
+}
+
+/// The library formatting path the monitors judge: the real wasm driver wherever it can run natively.
+pub fn format_source_driver(src: &str, width: Option<usize>) -> Result<String, String> {
+    match format_source_lib(src, width) {
+        Err(e) => Err(e),
+        Ok(_) => {
+            driver_journal_note(src, width);
+            format_source_wasm(src, width)
+        }
+    }
+}
+
 // ------------------------------------------------------------------------------------------------
 // reference values
 
